@@ -53,6 +53,7 @@ type handler struct {
 	third     *net.UDPConn // a socket that is nobody's peer: the target of SendTo on connected client sockets
 	thirdExp  [][]byte
 	inTraffic chan struct{}
+	parkUDP   bool // the next datagram callback parks the loop (udp burst step)
 	release   chan struct{}
 }
 
@@ -375,6 +376,21 @@ func (h *handler) onUDP(c gnet.Conn) gnet.Action {
 		}
 	}
 	h.script(ci, "udp")
+	h.mu.Lock()
+	park := h.parkUDP
+	h.parkUDP = false
+	h.mu.Unlock()
+	if park {
+		// the loop stays inside this datagram's callback while the driver queues a burst behind it
+		select {
+		case h.inTraffic <- struct{}{}:
+		default:
+		}
+		select {
+		case <-h.release:
+		case <-time.After(3 * time.Second):
+		}
+	}
 	a := gnet.None
 	if h.cfg.pShutdown > 0 && h.rnd.Intn(1000) < h.cfg.pShutdown {
 		// a Shutdown action returned from a datagram's OnTraffic
